@@ -22,6 +22,20 @@ def random_ops(rng: Rng, spec: Spec, cfg: dict, n: int, allow_reset=True, allow_
     return ops
 
 
+def f64_ops(ops, salt: int = 1):
+    """the same history with every batch in float64, off the float32 grid (registry.f64_variant)."""
+    from .registry import f64_variant
+    out = []
+    for op in ops:
+        if op[0] == "u":
+            out.append(("u", f64_variant(op[1], salt)))
+        elif op[0] == "m":
+            out.append(("m", [[f64_variant(b, salt) for b in bl] for bl in op[1]]))
+        else:
+            out.append(op)
+    return out
+
+
 def build_sources(spec: Spec, cfg: dict, lists):
     srcs = []
     for bl in lists:
